@@ -210,3 +210,116 @@ Example pristine_example :
                 [[[1]%N; [2;3]%N]; []; [[4]%N; [5]%N]] =
   Some [mkwound WClosed 0 0 2; mkwound WClosed 0 2 3; mkwound WClosed 2 0 2]%Z.
 Proof. vm_compute. reflexivity. Qed.
+
+(** ** Added (Compose/ModelsAgree.v): the models C04 shares a Go function with agree
+
+    wsync.βhash is modelled by Sig/Weak.v [beta_hash] (here) and by Wsync/Weak.v [bhash] /
+    [weak_of] (C11, C08); wsync.CreateSignature by Sig/Sign.v (here: the scanner loop
+    [create_signature] and the reference [sign_file]) and by Wsync/Sign.v [sign_file] (C11);
+    [doOne] of pwr/validator.go by Sig/Validate.v [validate_file] (here, for pristine copies) and
+    by Val/FileVal.v [file_wounds] (C05).  Each has its own correspondence; these theorems tie
+    the transcriptions to each other.  Stated in C04's file for the pairs C04/C11 and C04/C05.
+    (blockvalidator.go / validatingpool.go exist once, Val/VPool.v: Sig/Validate.v,
+    Val/FileVal.v, Val/Safekeeper.v and Compose/ValidateProtocol.v all import it.) *)
+From Wharf Require Wsync.Weak Wsync.Library Wsync.Sign Val.FileVal
+     Compose.ModelsAgreeHashProofs Compose.ModelsAgreeValidateProofs.
+
+(** βhash: equal on every block of at most 2^32 bytes, whatever the byte values (the C11
+    triple [(β, β1, β2)] is the C04 value and the 16-bit halves of the two sums).  Hypothesis:
+    [uint32(len(block)-1)] does not truncate - blocks are at most [blockSize] = 64 KiB *)
+Theorem weak_hash_models_agree :
+  forall block : list N, (N.of_nat (length block) <= 4294967296)%N ->
+    beta_hash block = Wsync.Weak.weak_of block /\
+    Wsync.Weak.bhash block =
+      (beta_hash block, low16 (fst (beta_loop (N.of_nat (length block)) 0 0 0 block)),
+       low16 (snd (beta_loop (N.of_nat (length block)) 0 0 0 block))).
+Proof. exact ModelsAgreeHashProofs.weak_hash_models_agree_lemma. Qed.
+Print Assumptions weak_hash_models_agree.
+
+(** ... and beyond that they differ: on a block of 2^32 + 1 bytes, all zero but the second, the
+    model of this property says 65537 and the C11 model says 1.  Go says 1 ([uint32(len-1)] is
+    0 and [0 - uint32(1) + 1] wraps to 0): above 2^32 bytes Sig/Weak.v - whose comment "the
+    unsigned subtraction does not wrap" assumes [len - 1 < 2^32] - is not the Go function.
+    No block of that size exists in wharf *)
+Theorem weak_hash_models_differ_beyond_u32 :
+  exists block : list N,
+    N.of_nat (length block) = 4294967297%N /\ beta_hash block = 65537%N /\ Wsync.Weak.weak_of block = 1%N.
+Proof. exact ModelsAgreeHashProofs.weak_hash_models_differ_beyond_u32_lemma. Qed.
+Print Assumptions weak_hash_models_differ_beyond_u32.
+
+(** CreateSignature: what C04's model of the code writes for a file - over any chunking the
+    scanner tolerates - is C11's [sign_file] of the content ([bh_of_ent]: the same five fields in
+    the other record), file by file and for a whole container.  Hypotheses: [0 < bs] and
+    [bs <= 2^32] (for the weak hash) *)
+Theorem create_signature_models_agree :
+  forall (H : Type) (strong : list N -> H) (bs : N) (maxE : nat),
+    (0 < bs)%N -> (bs <= 4294967296)%N ->
+    (forall (fileIndex : N) (chunks : list (list N)) (eofWithLast : bool),
+       runs_ok maxE maxE chunks ->
+       create_signature bs beta_hash strong maxE fileIndex chunks eofWithLast =
+       (map ModelsAgreeHashProofs.bh_of_ent (Wsync.Sign.sign_file strong bs fileIndex (concat chunks)), SEof)) /\
+    (forall (fileIndex : N) (content : list N),
+       map ModelsAgreeHashProofs.bh_of_ent (Wsync.Sign.sign_file strong bs fileIndex content) =
+       sign_file bs beta_hash strong fileIndex content) /\
+    (forall (olds : list (list N)),
+       map ModelsAgreeHashProofs.bh_of_ent (Wsync.Sign.sign_all strong bs 0 olds) = sign_all bs beta_hash strong olds).
+Proof. exact ModelsAgreeHashProofs.create_signature_models_agree_lemma. Qed.
+Print Assumptions create_signature_models_agree.
+
+(** [doOne]: C04's [validate_file] against the groups of a real signature and C05's
+    [file_wounds] against the signed content give the same wounds when the file on disk is not
+    longer than the signed one ... *)
+Theorem validate_file_models_agree :
+  forall (H : Type) (bs : N) (weak : list N -> N) (strong : list N -> H) (seqb : H -> H -> bool) (maxWound : Z)
+         (files : list (list N)) (i : nat) (signed content : list N),
+    nth_error files i = Some signed ->
+    length content <= length signed ->
+    validate_file bs weak strong seqb maxWound (groups_from bs weak strong 0 files) i (N.of_nat (length signed)) [content] =
+    Val.FileVal.file_wounds (Z.of_N bs) maxWound (block_hash weak strong) (pair_eqb seqb) (Z.of_nat i) signed
+                            (Val.FileVal.OFile content).
+Proof. exact ModelsAgreeValidateProofs.validate_file_models_agree_lemma. Qed.
+Print Assumptions validate_file_models_agree.
+
+(** ... and differ when it is longer: this property's model still emits the size wound as
+    (written, size), start > end - the code before repo commit ccb6315 - where the C05 model and
+    the code now swap the two.  Dead code for a pristine copy (written = size) *)
+Theorem validate_file_models_differ_on_longer_file :
+  let weak := fun _ : list N => 0%N in
+  let strong := fun b : list N => b in
+  validate_file 2 weak strong nlist_eqb 100 (groups_from 2 weak strong 0 [[1; 2]%N]) 0 2 [[1; 2; 3]%N] =
+    [mkwound WClosed 0 0 2; mkwound WFile 0 2 2; mkwound WFile 0 3 2]%Z /\
+  Val.FileVal.file_wounds 2 100 (block_hash weak strong) (pair_eqb nlist_eqb) 0 [1; 2]%N (Val.FileVal.OFile [1; 2; 3]%N) =
+    [mkwound WClosed 0 0 2; mkwound WFile 0 2 2; mkwound WFile 0 2 3]%Z.
+Proof. exact ModelsAgreeValidateProofs.validate_file_differs_on_longer_file_lemma. Qed.
+Print Assumptions validate_file_models_differ_on_longer_file.
+
+(** pwr.ComputeHashInfo: this property's [compute_hash_info] (Sig/HashInfo.v) against C10's
+    [hash_info] (Patch/Malformed.v: outcome class; [fx] = the code before / after repo commit
+    6a06397, [cap] = capacity of the hash slice, at least its length).  [HiOk] / [HiErr] are C10's
+    [Ok] / [Err] for both versions.  Where this model says [HiPanic] (fewer hashes than the files
+    need) the code NOW returns an error: Sig/HashInfo.v is the code before that commit (with
+    cap = len); unreachable for the complete signatures C04 is about ([hashinfo_groups]) *)
+From Wharf Require Patch.Malformed Compose.ModelsAgreeHashInfoProofs.
+
+Theorem hash_info_models_agree :
+  forall (X : Type) (bs : N) (sizes : list N) (hashes : list X),
+    (0 < bs)%N ->
+    let n := Z.of_nat (length hashes) in
+    match compute_hash_info bs sizes hashes with
+    | HiOk _ => forall fx cap, (n <= cap)%Z ->
+                  Malformed.hash_info fx (Z.of_N bs) (map Z.of_N sizes) 0 n cap = Malformed.Ok
+    | HiErr => forall fx cap, (n <= cap)%Z ->
+                  Malformed.hash_info fx (Z.of_N bs) (map Z.of_N sizes) 0 n cap = Malformed.Err
+    | HiPanic =>
+        (forall cap, (n <= cap)%Z -> Malformed.hash_info true (Z.of_N bs) (map Z.of_N sizes) 0 n cap = Malformed.Err) /\
+        Malformed.hash_info false (Z.of_N bs) (map Z.of_N sizes) 0 n n = Malformed.Panic Malformed.SHashInfoSlice
+    end.
+Proof. exact ModelsAgreeHashInfoProofs.hash_info_models_agree_lemma. Qed.
+Print Assumptions hash_info_models_agree.
+
+Theorem hash_info_models_differ_on_missing_hashes :
+  compute_hash_info 2 [2; 2]%N [tt] = HiPanic /\
+  Malformed.hash_info true 2 [2; 2]%Z 0 1 1 = Malformed.Err /\
+  Malformed.hash_info false 2 [2; 2]%Z 0 1 1 = Malformed.Panic Malformed.SHashInfoSlice.
+Proof. exact ModelsAgreeHashInfoProofs.hash_info_models_differ_on_missing_hashes_lemma. Qed.
+Print Assumptions hash_info_models_differ_on_missing_hashes.
